@@ -129,6 +129,10 @@ async fn resolve_and_build_response(args: ListenArgs, query: Message) -> Message
                             }
                             response.header.is_authoritative = false;
                         }
+                        ResolvedRecord::Referral { mut ns_rrs } => {
+                            response.authority.append(&mut ns_rrs);
+                            response.header.is_authoritative = false;
+                        }
                     }
                     "ok".to_string()
                 }
